@@ -30,6 +30,9 @@ def apply(env, c, k, op, x, y, st):
     """one operation; returns a violation tag or None"""
     before = snapshot(c)
     counters = (dict(c._usage_data), c.num_provisioned_obs)
+    # other work due at this very instant (a finishing ingest, the cluster's poll) runs inside the same drain() as the
+    # call under test: "unchanged after a refusal" can only be asked when nothing else is pending now
+    quiet = env.peek() > env.now
     try:
         if op == 0:
             name = pick(NAMES, y)
@@ -56,7 +59,7 @@ def apply(env, c, k, op, x, y, st):
         return None
     except (RuntimeError, ValueError, IndexError):
         # a refused call must leave pools and counters unchanged
-        if snapshot(c) != before or (dict(c._usage_data), c.num_provisioned_obs) != counters:
+        if quiet and (snapshot(c) != before or (dict(c._usage_data), c.num_provisioned_obs) != counters):
             return 'C02/refused-call-changed-state/' + OPS[op]
         return None
 
@@ -96,6 +99,7 @@ def hist4(x1: int, y1: int, x2: int, y2: int, x3: int, y3: int, x4: int, y4: int
     """
     pre: 0 <= x1 <= 2 and 0 <= x2 <= 2 and 0 <= x3 <= 2 and 0 <= x4 <= 2
     pre: 0 <= y1 <= 2 and 0 <= y2 <= 2 and 0 <= y3 <= 2 and 0 <= y4 <= 2
+    pre: PIN.get('x1') in (None, x1) and PIN.get('y1') in (None, y1)
     post: _
     """
     t = hist4_tag(x1, y1, x2, y2, x3, y3, x4, y4)
@@ -163,6 +167,12 @@ def shards(tier, prop):
             for o2 in R:
                 for o3 in R:
                     for o4 in R:
+                        if all(o in (0, 3) for o in (o1, o2, o3, o4)):
+                            # only provision/allocate: 9^4 argument vectors, measured not to exhaust in 600 s -> first argument pair pinned
+                            for x1 in range(3):
+                                for y1 in range(3):
+                                    out.append({'fn': 'hist4', 'pin': {'o1': o1, 'o2': o2, 'o3': o3, 'o4': o4, 'x1': x1, 'y1': y1}, 'cond_timeout': 600, 'path_timeout': 30})
+                            continue
                         out.append({'fn': 'hist4', 'pin': {'o1': o1, 'o2': o2, 'o3': o3, 'o4': o4}, 'cond_timeout': 600, 'path_timeout': 30})
     for op in range(4):
         for p0 in range(6):
